@@ -132,6 +132,70 @@ theorem mem_ids_of_sublist {s s' : ScopeS} (h : (sigs s').Sublist (sigs s)) {i :
   rw [ids_eq_sigs] at *
   exact (h.map _).subset hi
 
+/-! ## `purgeFrom`: the purge of the root `Close` touches registered scopes only -/
+
+theorem purgeFrom_getElem? (regd : List Nat) : ∀ (l : List ScopeS) (i j : Nat),
+    (purgeFrom regd i l)[j]? = l[j]?.map fun x =>
+      if regd.contains (i + j) then { x with closed := true, metrics := [] } else x
+  | [], _, _ => by simp [purgeFrom]
+  | x :: xs, i, 0 => by simp [purgeFrom]
+  | x :: xs, i, j + 1 => by
+    simp only [purgeFrom, List.getElem?_cons_succ]
+    rw [purgeFrom_getElem? regd xs (i + 1) j]
+    have : i + 1 + j = i + (j + 1) := by omega
+    rw [this]
+
+theorem purgeFrom_length (regd : List Nat) : ∀ (l : List ScopeS) (i : Nat),
+    (purgeFrom regd i l).length = l.length
+  | [], _ => rfl
+  | x :: xs, i => by simp [purgeFrom, purgeFrom_length regd xs (i + 1)]
+
+theorem purgeFrom_ids_sublist (regd : List Nat) : ∀ (l : List ScopeS) (i : Nat),
+    ((purgeFrom regd i l).flatMap ids).Sublist (l.flatMap ids)
+  | [], _ => by simp [purgeFrom]
+  | x :: xs, i => by
+    simp only [purgeFrom, List.flatMap_cons]
+    refine List.Sublist.append ?_ (purgeFrom_ids_sublist regd xs (i + 1))
+    split
+    · simp [ids]
+    · exact List.Sublist.refl _
+
+/-- the state after the purge -/
+def purgeSt (st : St) (b : Bool) : St :=
+  { st with reg := [],
+            scopes := purgeFrom (st.reg.map fun (e : (Nat × Bytes) × Nat) => e.2) 0 st.scopes,
+            reporterClosed := b }
+
+/-- a scope after the purge: the old scope, closed and cleared iff its id was registered -/
+theorem getScope_purgeSt {st : St} {b : Bool} {j : Nat} {s' : ScopeS}
+    (h : getScope (purgeSt st b) j = some s') :
+    ∃ x, getScope st j = some x ∧
+      ((s' = { x with closed := true, metrics := [] } ∧ j ∈ st.reg.map (fun e => e.2)) ∨
+       (s' = x ∧ j ∉ st.reg.map (fun e => e.2))) := by
+  unfold getScope purgeSt at h
+  simp only [purgeFrom_getElem?, Option.map_eq_some_iff, Nat.zero_add] at h
+  obtain ⟨x, hx, rfl⟩ := h
+  refine ⟨x, hx, ?_⟩
+  by_cases hc : j ∈ st.reg.map (fun e => e.2)
+  · left
+    have : (st.reg.map fun (e : (Nat × Bytes) × Nat) => e.2).contains j = true := by
+      simpa using hc
+    exact ⟨by rw [if_pos this], hc⟩
+  · right
+    have : (st.reg.map fun (e : (Nat × Bytes) × Nat) => e.2).contains j = false := by
+      simpa using hc
+    exact ⟨by rw [this]; rfl, hc⟩
+
+theorem getScope_purgeSt_of_some {st : St} (b : Bool) {j : Nat} {x : ScopeS}
+    (h : getScope st j = some x) :
+    ∃ s', getScope (purgeSt st b) j = some s' ∧
+      (s' = { x with closed := true, metrics := [] } ∨ s' = x) := by
+  unfold getScope purgeSt at *
+  simp only [purgeFrom_getElem?, h, Option.map_some, Nat.zero_add]
+  split
+  · exact ⟨_, rfl, .inl rfl⟩
+  · exact ⟨_, rfl, .inr rfl⟩
+
 /-! ## primitive transitions -/
 
 inductive Prim (sem : Prop) (ok : Bytes → Nat → Prop) : St → St → Prop
@@ -162,10 +226,7 @@ inductive Prim (sem : Prop) (ok : Bytes → Nat → Prop) : St → St → Prop
       (sem → Canonical ns.tags ∧ k = key ns.pfx [ns.tags] ∧ st.reg.lookup (sh, k) = none ∧ ok k sh) →
       Prim sem ok st (regAdd { st with scopes := st.scopes ++ [ns] } sh k st.scopes.length)
   | rootClosed (st : St) : Prim sem ok st { st with rootClosed := true }
-  | purge (st : St) (b : Bool) :
-      Prim sem ok st { st with reg := [],
-                               scopes := st.scopes.map fun (x : ScopeS) => { x with closed := true, metrics := [] },
-                               reporterClosed := b }
+  | purge (st : St) (b : Bool) : Prim sem ok st (purgeSt st b)
 
 inductive Prims (sem : Prop) (ok : Bytes → Nat → Prop) : St → St → Prop
   | refl (st : St) : Prims sem ok st st
@@ -336,18 +397,17 @@ theorem prim_ext {sem : Prop} {ok : Bytes → Nat → Prop} {st st' : St} (h : P
         (fun _ _ h => by simpa using h))
   | rootClosed => exact ext_same_scopes rfl rfl rfl (fun _ => rfl) rfl (fun _ _ h => h)
   | purge b =>
-    refine ⟨rfl, rfl, by simp, ?_, id, Nat.le_refl _, ?_, fun _ _ h => h⟩
+    refine ⟨rfl, rfl, by simp [purgeSt, purgeFrom_length], ?_, id, Nat.le_refl _, ?_, fun _ _ h => h⟩
     · intro sid s h
-      refine ⟨{ s with closed := true, metrics := [] }, ?_, rfl, rfl, rfl, fun _ => rfl, ?_⟩
-      · unfold getScope at *
-        simp [List.getElem?_map, h]
-      · intro hc; cases hc
+      obtain ⟨s', hs', hc | hc⟩ := getScope_purgeSt_of_some b h
+      · subst hc
+        exact ⟨_, hs', rfl, rfl, rfl, fun _ => rfl, fun hc => by cases hc⟩
+      · subst hc
+        exact ⟨_, hs', rfl, rfl, rfl, id, fun _ => List.prefix_refl _⟩
     · intro i _ sid s' h hi
-      exfalso
-      unfold getScope at h
-      simp only [List.getElem?_map, Option.map_eq_some_iff] at h
-      obtain ⟨x, _, rfl⟩ := h
-      simp [ids] at hi
+      obtain ⟨x, hx, ⟨rfl, _⟩ | ⟨rfl, _⟩⟩ := getScope_purgeSt h
+      · simp [ids] at hi
+      · exact ⟨_, hx, hi⟩
 
 theorem prims_ext {sem : Prop} {ok : Bytes → Nat → Prop} {st st' : St} (h : Prims sem ok st st') :
     Ext st st' := by
@@ -581,10 +641,9 @@ theorem prim_inv {sem : Prop} {ok : Bytes → Nat → Prop} {st st' : St} (hsem 
     refine ⟨?_, ?_, ?_⟩
     · intro sh k j hm; cases hm
     · intro j sj hj
-      unfold getScope at hj
-      simp only [List.getElem?_map, Option.map_eq_some_iff] at hj
-      obtain ⟨x, hx, rfl⟩ := hj
-      exact hi.canon j x hx
+      obtain ⟨x, hx, ⟨rfl, _⟩ | ⟨rfl, _⟩⟩ := getScope_purgeSt hj
+      · exact hi.canon j x hx
+      · exact hi.canon j _ hx
     · show (([] : List ((Nat × Bytes) × Nat)).map (·.1)).Nodup
       simp
 
@@ -699,12 +758,8 @@ theorem metInv_same {st st' : St} (hi : MetInv st) (hsc : st'.scopes = st.scopes
   have : allIds st' = allIds st := by unfold allIds; rw [hsc]
   exact ⟨by rw [this]; exact hi.nodup, fun i h => by rw [hn]; rw [this] at h; exact hi.lt i h⟩
 
-theorem allIds_purge (st : St) (b : Bool) :
-    allIds { st with reg := [],
-                     scopes := st.scopes.map fun (x : ScopeS) => { x with closed := true, metrics := [] },
-                     reporterClosed := b } = [] := by
-  unfold allIds
-  simp [List.flatMap_map, ids]
+theorem allIds_purge (st : St) (b : Bool) : (allIds (purgeSt st b)).Sublist (allIds st) :=
+  purgeFrom_ids_sublist _ st.scopes 0
 
 theorem prim_metInv {sem : Prop} {ok : Bytes → Nat → Prop} {st st' : St}
     (h : Prim sem ok st st') (hi : MetInv st) : MetInv st' := by
@@ -745,8 +800,8 @@ theorem prim_metInv {sem : Prop} {ok : Bytes → Nat → Prop} {st st' : St}
       rw [this] at h; simpa using hi.lt i h⟩
   | rootClosed => exact metInv_same hi rfl rfl
   | purge b =>
-    have := allIds_purge st b
-    exact ⟨by rw [this]; simp, fun i h => by rw [this] at h; cases h⟩
+    have hsl := allIds_purge st b
+    exact ⟨List.Nodup.sublist hsl hi.nodup, fun i h => hi.lt i (hsl.subset h)⟩
 
 theorem prims_metInv {sem : Prop} {ok : Bytes → Nat → Prop} {st st' : St}
     (h : Prims sem ok st st') : MetInv st → MetInv st' := by
@@ -839,12 +894,12 @@ theorem prim_liveReg {sem : Prop} {f : Bytes → Nat} {st st' : St} (hsem : sem)
       exact lookup_append_of_none hfree _
   | rootClosed => exact liveReg_same hl rfl rfl rfl
   | purge b =>
-    intro j sj hj hcl
+    intro j sj hj hcl sh h1 h2
     exfalso
-    unfold getScope at hj
-    simp only [List.getElem?_map, Option.map_eq_some_iff] at hj
-    obtain ⟨x, _, rfl⟩ := hj
-    cases hcl
+    obtain ⟨x, hx, ⟨rfl, _⟩ | ⟨rfl, hnot⟩⟩ := getScope_purgeSt hj
+    · cases hcl
+    · have := mem_of_lookup_eq_some (hl j _ hx hcl sh h1 h2)
+      exact hnot (List.mem_map.mpr ⟨_, this, rfl⟩)
 
 theorem prims_liveReg {sem : Prop} {f : Bytes → Nat} {st st' : St} (hsem : sem)
     (h : Prims sem (fun k sh => sh = f k) st st') : LiveReg f st → LiveReg f st' := by
